@@ -38,7 +38,11 @@ def custom_repr_args(self, **overrides: Any) -> Args:
     )[1:]
     for param in parameters:
         value = overrides.get(param.name, getattr(self, param.name, None))
-        if value == param.default:
+        if value == param.default and isinstance(value, bool) == isinstance(
+            param.default, bool
+        ):
+            # Equal to the default - and not merely a number which compares
+            # equal to a boolean default (elements tell those apart).
             continue
         if param.kind == param.VAR_POSITIONAL:
             args.extend(value or [])
